@@ -288,3 +288,61 @@ VARIANTS += [
     V("c06-b3", "C06", "linear", "_RidgeRegression.fit", "self.Xty = self.Xty + np.dot(Xt, y)",
       "xty_new = np.dot(Xt, y)\nself.Xty = self.Xty + xty_new", benign=True),
 ]
+
+# ---------------------------------------------------------------------------------------------------- C17
+_ADD_OLD = ('check_false(arm in self.arms, ValueError("The arm is already in the list of arms."))\n'
+            'self._validate_arm(arm)\nself.arms.append(arm)')
+_NB_FIX = ("decisions = np.concatenate((self.decisions, decisions))\n"
+           "contexts = np.concatenate((self.contexts, contexts))\n"
+           "rewards = np.concatenate((self.rewards, rewards))\n"
+           "self.decisions, self.contexts, self.rewards = decisions, contexts, rewards")
+VARIANTS += [
+    V("c17-m1", "C17", "mab", "MAB.add_arm", _ADD_OLD,
+      'self.arms.append(arm)\ncheck_false(self.arms.count(arm) > 1, ValueError("The arm is already in the list of '
+      'arms."))\nself._validate_arm(arm)', "R17.1", why="arm appended before it is validated"),
+    V("c17-m2", "C17", "mab", "MAB.fit",
+      "self._imp.fit(decisions, rewards, contexts)\nself._is_initial_fit = True",
+      "self._is_initial_fit = True\nself._imp.fit(decisions, rewards, contexts)", "R17.1",
+      why="bandit marked as fitted before a fit that can still reject the data"),
+    V("c17-m3", "C17", "mab", "MAB.partial_fit",
+      'check_true(np.isfinite(sum(rewards)), TypeError("Rewards cannot contain None, NaN or infinity."))\n'
+      "contexts = self.__convert_context(contexts, decisions)\n"
+      "if self._is_initial_fit:\n    self._imp.partial_fit(decisions, rewards, contexts)\nelse:\n    "
+      "self.fit(decisions, rewards, contexts)",
+      "contexts = self.__convert_context(contexts, decisions)\n"
+      "if self._is_initial_fit:\n    self._imp.partial_fit(decisions, rewards, contexts)\nelse:\n    "
+      "self.fit(decisions, rewards, contexts)\n"
+      'check_true(np.isfinite(sum(rewards)), TypeError("Rewards cannot contain None, NaN or infinity."))',
+      "R17.1", why="non-finite rewards rejected after they have been learned"),
+    V("c17-m4", "C17", "linear", "_Linear._fit_arm", "lr.fit(X, y)\nself.arm_to_model[arm] = lr",
+      "self.arm_to_model[arm] = lr\nlr.fit(X, y)", "R17.2", why="copy published before it is updated"),
+    V("c17-m5", "C17", "neighbors", "_Neighbors.partial_fit", _NB_FIX,
+      "self.decisions = np.concatenate((self.decisions, decisions))\n"
+      "self.contexts = np.concatenate((self.contexts, contexts))\n"
+      "self.rewards = np.concatenate((self.rewards, rewards))", "R17.2",
+      why="history arrays published one by one (the repaired defect)"),
+    V("c17-m6", "C17", "mab", "MAB.warm_start",
+      'check_true(set(self.arms) == set(arm_to_features.keys()), ValueError("The arms in arm features do not match '
+      'arms."))\nself._imp.warm_start(arm_to_features, distance_quantile)',
+      'self._imp.warm_start(arm_to_features, distance_quantile)\n'
+      'check_true(set(self.arms) == set(arm_to_features.keys()), ValueError("The arms in arm features do not match '
+      'arms."))', "R17.1", why="feature/arm mismatch detected after the warm start"),
+    V("c17-m7", "C17", "mab", "MAB.remove_arm",
+      'check_true(arm in self.arms, ValueError("The arm is not in the list of arms."))\nself._validate_arm(arm)\n'
+      "self.arms.remove(arm)",
+      "self._validate_arm(arm)\nself._imp.remove_arm(arm)\n"
+      'check_true(arm in self.arms, ValueError("The arm is not in the list of arms."))\nself.arms.remove(arm)',
+      "R17.1", why="implementor state dropped before the arm is validated"),
+    V("c17-m8", "C17", "clusters", "_Clusters.partial_fit", _NB_FIX,
+      "self.rewards = np.concatenate((self.rewards, rewards))\n" + _NB_FIX.replace(
+          "rewards = np.concatenate((self.rewards, rewards))\n", "").replace(
+          "self.decisions, self.contexts, self.rewards = decisions, contexts, rewards",
+          "self.decisions, self.contexts = decisions, contexts"), "R17.2",
+      why="rewards stored before the contexts have been checked"),
+    V("c17-b1", "C17", "neighbors", "_Neighbors.partial_fit", _NB_FIX,
+      _NB_FIX.replace("self.decisions, self.contexts, self.rewards = decisions, contexts, rewards",
+                      "self.decisions = decisions\nself.contexts = contexts\nself.rewards = rewards"),
+      benign=True),
+    V("c17-b2", "C17", "mab", "MAB.add_arm", _ADD_OLD, _ADD_OLD.replace(
+        "self.arms.append(arm)", "new_arm = arm\nself.arms.append(new_arm)"), benign=True),
+]
